@@ -2020,3 +2020,15 @@ m("C06", "hex-marker-lowercase-only", "utils.py",
 m("C06", "apos-not-decoded", "utils.py",
   "        cp = n2cp.get(ent) or (39 if ent == 'apos' else None)",
   "        cp = n2cp.get(ent)")
+m("C02", "unquoted-value-keeps-empty-quote", ZP,
+  '''            if not quote and eq and (
+                expr is not None or (text is not None and '${' in text)
+            ):
+                quote = '"'
+''', "")
+m("C07", "unquoted-value-keeps-empty-quote", ZP,
+  '''            if not quote and eq and (
+                expr is not None or (text is not None and '${' in text)
+            ):
+                quote = '"'
+''', "")
